@@ -50,6 +50,10 @@ func (fr *Frame) intercept(st *State, fn *ssa.Function, pkg string, args []Val, 
 	if recv != "" {
 		full = pkg + "." + recv + "." + name
 	}
+	if o := fn.Origin(); o != nil && o != fn && recv == "" {
+		// instantiation of a generic library function: matched by the name of its origin
+		full = pkg + "." + o.Name()
+	}
 	lockState := func() *Term { return ex.get(st, "LockState", ArraySort(SRef, SInt)) }
 	if name == "decodeMessage" && ex.w.inScope(pkg) && len(args) == 2 && args[0].T != nil {
 		// msgpack decoding is reflection-driven library code: modelled as a deterministic
@@ -144,6 +148,37 @@ func (fr *Frame) intercept(st *State, fn *ssa.Function, pkg string, args []Val, 
 		return fr.atomicOp(st, "store", args, fn, pos), true
 	case "sync/atomic.Uint64.CompareAndSwap", "sync/atomic.Uint32.CompareAndSwap", "sync/atomic.Int64.CompareAndSwap", "sync/atomic.Int32.CompareAndSwap":
 		return fr.atomicOp(st, "cas", args, fn, pos), true
+	case "maps.Copy":
+		// maps.Copy(dst, src): dst gets every entry of src, the others are kept
+		if len(args) == 2 && args[0].T != nil && args[1].T != nil && len(fn.Params) == 2 {
+			mt := fn.Params[0].Type()
+			dom, val, ln, ks, vs := ex.mapComps(mt)
+			ds := ArraySort(SRef, ArraySort(ks, SBool))
+			vsort := ArraySort(SRef, ArraySort(ks, vs))
+			d := ex.get(st, dom, ds)
+			vv := ex.get(st, val, vsort)
+			dst, src := args[0].T, args[1].T
+			srcHas := func(k *Term) *Term { return And(Neq(src, TNull), Select(Select(d, src), k)) }
+			kb := Bound{Name: ex.boundName("k"), Sort: ks}
+			kv := V(kb.Name, ks)
+			if ex.ghost == 0 {
+				// writing into a nil map panics (unless there is nothing to copy)
+				fr.safetyNamed(st, "mapwrite", Or(Neq(dst, TNull), Forall([]Bound{kb}, Not(srcHas(kv)))), pos, "maps.Copy into nil map", instr)
+			}
+			nd := ex.ctx.Fresh("mapscopy.dom", ArraySort(ks, SBool))
+			nv := ex.ctx.Fresh("mapscopy.val", ArraySort(ks, vs))
+			ex.assume(st, Forall([]Bound{kb}, And(
+				Eq(Select(nd, kv), Or(Select(Select(d, dst), kv), srcHas(kv))),
+				Eq(Select(nv, kv), Ite(srcHas(kv), Select(Select(vv, src), kv), Select(Select(vv, dst), kv))))))
+			ex.set(st, dom, Store(d, dst, nd))
+			ex.set(st, val, Store(vv, dst, nv))
+			lc := ex.get(st, ln, ArraySort(SRef, SInt))
+			nl := ex.ctx.Fresh("mapscopy.len", SInt)
+			ex.assume(st, Ge(nl, Select(lc, dst)))
+			ex.set(st, ln, Store(lc, dst, nl))
+			ex.trusted["maps.Copy(dst, src): dst receives every entry of src and keeps its other entries"] = true
+			return Val{}, true
+		}
 	case "sync/atomic.Value.Load":
 		// atomic.Value: all values ever stored have one concrete type (Store panics otherwise), so what another
 		// thread may have stored since is an arbitrary value of the type of the value last seen here
